@@ -43,19 +43,25 @@ def fix_words(t, rnd):
 
 
 def word_literal(t, rnd):
+    """(source literal, the 32-byte ABI word a getter returns for it)"""
     if t.kind == "flag":
-        return f"{t.name}.{rnd.choice('ABC')}"
+        m = rnd.choice("ABC")
+        return f"{t.name}.{m}", 1 << "ABC".index(m)
     n = t.name
     if n == "uint256":
-        return str(rnd.randrange(1, 2**200))
+        v = rnd.randrange(1, 2**200)
+        return str(v), v
     if n == "int128":
-        return str(rnd.choice([-1, 1]) * rnd.randrange(1, 2**100))
+        v = rnd.choice([-1, 1]) * rnd.randrange(1, 2**100)
+        return str(v), v % 2**256
     if n == "bool":
-        return "True"
+        return "True", 1
     if n == "bytes32":
-        return "0x" + "%064x" % rnd.randrange(1, 2**256)
+        v = rnd.randrange(1, 2**256)
+        return "0x" + "%064x" % v, v
     if n == "uint8":
-        return str(rnd.randrange(1, 256))
+        v = rnd.randrange(1, 256)
+        return str(v), v
     raise ValueError(n)
 
 
@@ -74,8 +80,8 @@ def key_literal(ksrc, rnd):
 
 
 class Op:
-    def __init__(self, var, expr, segs, stmt, leaf, kind):
-        self.var, self.expr, self.segs, self.stmt, self.leaf, self.kind = var, expr, segs, stmt, leaf, kind
+    def __init__(self, var, expr, segs, stmt, leaf, kind, word=None):
+        self.var, self.expr, self.segs, self.stmt, self.leaf, self.kind, self.word = var, expr, segs, stmt, leaf, kind, word
         # segs: list of ("static", type_at_start, [coq steps]) / ("key", int)
 
 
@@ -92,7 +98,8 @@ def gen_ops(rnd, var, max_ops):
         while True:
             k = t.kind
             if k in ("word", "flag"):
-                stmt = f"{expr} = {word_literal(t, rnd)}"
+                lit, word = word_literal(t, rnd)
+                stmt = f"{expr} = {lit}"
                 kind = "word"
                 break
             if k == "bytes":
@@ -130,7 +137,7 @@ def gen_ops(rnd, var, max_ops):
                 continue
             raise ValueError(k)
         segs.append(("static", cur_ty, cur_steps))
-        ops.append(Op(var, expr, segs, stmt, t, kind))
+        ops.append(Op(var, expr, segs, stmt, t, kind, word if kind == "word" else None))
     return ops
 
 
@@ -202,6 +209,8 @@ class Contract:
                 lines.append(f"    {nm} = {lit}")
         for k, op in enumerate(self.ops):
             lines.append("@external" + ("\n@nonreentrant" if self.nr and k % 2 == 0 else "") + f"\ndef op{k}():\n    {op.stmt}")
+            if op.kind == "word":   # getter for the read-back oracle (other paths keep their values)
+                lines.append(f"@external\n@view\ndef g{k}() -> {op.leaf.src()}:\n    return {op.expr}")
         return "\n".join(lines) + "\n"
 
 
@@ -247,6 +256,7 @@ def run(ctx, model_ok, n, IMPORTS):
                     exprs.append(f"path_range 0 {seg[1].coq()} [{'; '.join(seg[2])}]")
     outs = coqrun.eval_zlists(IMPORTS, exprs, "c10glue", shard=max(8, len(exprs) // 4 + 1)) if (model_ok and exprs) else None
     n_ops = 0
+    pending = None
     stats = {"word": 0, "bytes": 0, "fill": 0, "map_paths": 0, "immutables": 0, "transient_ops": 0}
     for ci, c in enumerate(contracts):
         for cfg in core_configs():
@@ -289,6 +299,7 @@ def run(ctx, model_ok, n, IMPORTS):
                 e = layout.get(LOC_KEY[loc], {}).get(v.name)
                 reported[v.name] = (loc, e["slot"], e["n_slots"])
             last = {}
+            written = {}    # expr -> (getter index, expected ABI word) of the last word written through that path
             for oi, op in enumerate(c.ops):
                 loc, vslot, vn = reported[op.var.name]
                 # same value written to the same path again (or zero-length change): no word needs to change
@@ -297,6 +308,9 @@ def run(ctx, model_ok, n, IMPORTS):
                     for k_ in [k_ for k_ in last if k_.startswith(op.expr)]:
                         del last[k_]
                 last[op.expr] = op.stmt
+                if op.kind == "fill":
+                    for k_ in [k_ for k_ in written if k_.startswith(op.expr)]:
+                        del written[k_]
                 pre_st, pre_tr = journal(ch, addr)   # transient storage is kept across calls (one long "transaction")
                 r = ch.call(addr, method_id(f"op{oi}()"))
                 post_st, post_tr = journal(ch, addr)
@@ -304,6 +318,15 @@ def run(ctx, model_ok, n, IMPORTS):
                 if not r.ok:
                     ctx.violation("correspondence-broken", "glue setter reverted", detail)
                     return n_ops, True
+                # ---- read-back oracle (model-free): every other path written so far still holds its value
+                if op.kind == "word":
+                    written[op.expr] = (oi, op.word)
+                for ex_, (gi, word) in written.items():
+                    g = ch.call(addr, method_id(f"g{gi}()"))
+                    if not g.ok or g.out != (word % 2**256).to_bytes(32, "big"):
+                        ctx.violation("failing-input", "a write through one access path changed the value read through another path",
+                                      dict(detail, other_path=ex_, expected=hex(word), observed=g.out.hex() if g.ok else "revert"))
+                        return n_ops, True
                 ch_st = set()
                 for s, (orig, present) in post_st.items():
                     old = pre_st[s][1] if s in pre_st else orig
@@ -367,8 +390,11 @@ def run(ctx, model_ok, n, IMPORTS):
                     first, cnt = exact
                     want = {(first + j) % 2**256 for j in range(cnt)}
                     if not changed <= want or (op.kind == "word" and changed != want and not rewrite):
-                        ctx.violation("correspondence-broken", "changed words differ from Layout.resolve's prediction",
-                                      dict(detail, predicted=[str(first), cnt]))
-                        return n_ops, True
+                        # model/code disagreement: keep going (Search) -- the read-back oracle may turn it into a failing input
+                        if pending is None:
+                            pending = dict(detail, predicted=[str(first), cnt])
     ctx.corr["glue"] = dict(stats, ops=n_ops, contracts=len(contracts), configs=[c.name for c in core_configs()])
+    if pending is not None:
+        ctx.violation("correspondence-broken", "changed words differ from Layout.resolve's prediction", pending)
+        return n_ops, True
     return n_ops, False
